@@ -90,6 +90,9 @@ def floors(tier):
             "fit.cost": 60,
             "fit.parameter_errors": 60,
             "source.cov_mat": 30,
+            "source.cov_mat_rel": 10,
+            "fit.asymmetric_parameter_errors": 5,
+            "k2Fit.values": 1,
             "constraint.cost": 20,
             "constraint.cov_mat": 8,
             "parameter_names": 30,
@@ -157,7 +160,8 @@ def n_points(rng, fam, nmax):
 def base_spec(rng, tier, ftype, mixed_y=False, mixed_x=False, family=None, cost="chi2"):
     nmax = 9 if tier == "quick" else 20
     if ftype in ("xy", "indexed"):
-        fams = ["poly1", "poly2", "trig", "expbasis", "poly1", "gausspeak"] if not mixed_x else ["poly1", "poly2", "trig"]
+        # (peak-shaped families are left to the model-form family: with random support points their fits are too often degenerate)
+        fams = ["poly1", "poly2", "trig", "expbasis", "poly1", "exponential"] if not mixed_x else ["poly1", "poly2", "trig"]
         fam = family or str(rng.choice(fams))
         n = n_points(rng, fam, nmax)
         spec = (gen.gen_xy_spec if ftype == "xy" else gen.gen_indexed_spec)(rng, family=fam, n=n, cost=cost)
@@ -572,6 +576,19 @@ def compare_fit_results(ctx, case, fa, fb, tag, key, minimizer):
     if pa.shape != pb.shape:
         ctx.check("fit.parameter_values", False, dict(det, got=pb, expected=pa), key=lambda: key("fit.parameter_values"))
         return False
+    # a (nearly) degenerate minimum has no position to within a fraction of the reported sigma: there only the cost is compared
+    cond = 1.0
+    try:
+        cor = np.array(fa.parameter_cor_mat, dtype=float)
+        free = [i for i in range(len(pa)) if sig[i] > 0]
+        if len(free) > 1:
+            cond = float(np.linalg.cond(cor[np.ix_(free, free)]))
+    except Exception:
+        cond = float("inf")
+    if not np.isfinite(cond) or cond > 1e4:
+        ctx.discard("do_fit-degenerate-minimum-values-not-compared")
+        ca, cb = float(fa.cost_function_value), float(fb.cost_function_value)
+        return ctx.check("fit.cost", abs(ca - cb) <= 10 * ctol, lambda: dict(det, got=cb, expected=ca, tolerance=10 * ctol, cond_cor=cond), key=lambda: key("fit.cost"))
     dev = np.abs(pa - pb)
     ok = ctx.check("fit.parameter_values", bool(np.all(dev <= ptol * sig + 1e-9 * (1.0 + np.abs(pa)))), lambda: dict(det, got=pb, expected=pa, sigma=sig, deviation_in_sigma=dev / np.where(sig > 0, sig, 1.0), tolerance_sigma=ptol), key=lambda: key("fit.parameter_values"))
     ca, cb = float(fa.cost_function_value), float(fb.cost_function_value)
@@ -588,7 +605,8 @@ def compare_fit_results(ctx, case, fa, fb, tag, key, minimizer):
         except Exception:
             cond = None
         ctx.note("errors-compared-at-2e-2" if etol <= 2e-2 else "errors-compared-looser-ill-conditioned")
-        ok = ctx.check("fit.parameter_errors", bool(np.all(np.abs(ea - eb) <= etol * np.maximum(np.abs(ea), np.abs(eb)) + 1e-12)), lambda: dict(det, got=eb, expected=ea, tolerance_rel=etol, cond_cor=cond), key=lambda: key("fit.parameter_errors")) and ok
+        both_nan = np.isnan(ea) & np.isnan(eb)
+        ok = ctx.check("fit.parameter_errors", bool(np.all(both_nan | (np.abs(ea - eb) <= etol * np.maximum(np.abs(ea), np.abs(eb)) + 1e-12))), lambda: dict(det, got=eb, expected=ea, tolerance_rel=etol, cond_cor=cond), key=lambda: key("fit.parameter_errors")) and ok
     return ok
 
 
@@ -614,13 +632,20 @@ def fit_both(ctx, case, fa, fb, tag, key, minimizer, start=None):
         fa.set_all_parameter_values(list(start))
         fb.set_all_parameter_values(list(start))
     ctx.op("do_fit", 2)
-    tl = 20.0
-    try:
-        with time_limit(tl):
-            fa.do_fit()
-            fb.do_fit()
-    except Exception:
-        ctx.violation(key("do_fit.no-exception"), "do_fit.no-exception", {"pair": tag, "traceback": fmt_exc()})
+    excs = []
+    for f in (fa, fb):
+        try:
+            with time_limit(20.0):
+                f.do_fit()
+            excs.append(None)
+        except Exception as e:
+            excs.append((type(e).__name__, fmt_exc()))
+    if excs[0] is not None or excs[1] is not None:
+        # an exception is a result as well: both specifications must fail alike (whether failing is right is C06 / C19 business)
+        if excs[0] is not None and excs[1] is not None and excs[0][0] == excs[1][0]:
+            ctx.discard("do_fit-raises-%s-on-both-sides" % excs[0][0])
+            return True
+        ctx.violation(key("do_fit.no-exception"), "do_fit.no-exception", {"pair": tag, "first": excs[0], "second": excs[1]})
         return False
     return compare_fit_results(ctx, case, fa, fb, tag, key, minimizer)
 
@@ -1052,7 +1077,7 @@ def gen_wrapper_xy(rng, tier, variant, sub):
         mfA, mfB = {"form": "default"}, {"form": "callable", "text": md_source(md)}
         names, defaults = md["params"], md["defaults"]
     else:
-        fam = str(rng.choice(["poly1", "poly2", "trig", "exponential", "expbasis", "gausspeak"]))
+        fam = str(rng.choice(["poly1", "poly2", "trig", "exponential", "expbasis", "poly3"]))
         spec = base_spec(rng, tier, "xy", family=fam, mixed_y=bool(rng.random() < 0.3))
         mfA = mfB = {"form": "vlib", "spec": spec["model"]}
         m = Model.from_spec(spec["model"])
@@ -1661,13 +1686,22 @@ def compare_signature(ctx, case, fa, fb, tag, key):
 def run_pair(ctx, case, env, sa, sb, tag, key, point_index=None):
     """returns number of cost comparisons; -1 if the pair diverged"""
     w0 = n_wit(ctx)
-    try:
-        with time_limit(60.0):
-            ra = realise(sa, env, ctx)
-            rb = realise(sb, env, ctx)
-    except Exception:
-        ctx.violation(key("realise.no-exception"), "realise.no-exception", {"pair": tag, "traceback": fmt_exc()})
+    res, excs = [], []
+    for sf in (sa, sb):
+        try:
+            with time_limit(60.0):
+                res.append(realise(sf, env, ctx))
+            excs.append(None)
+        except Exception as e:
+            res.append(None)
+            excs.append((type(e).__name__, fmt_exc()))
+    if excs[0] is not None or excs[1] is not None:
+        if excs[0] is not None and excs[1] is not None and excs[0][0] == excs[1][0]:
+            ctx.discard("both-specifications-raise-%s" % excs[0][0])  # failing alike is agreeing
+            return 0
+        ctx.violation(key("realise.no-exception"), "realise.no-exception", {"pair": tag, "traceback": (excs[0] or excs[1])[1], "first": excs[0] and excs[0][0], "second": excs[1] and excs[1][0]})
         return -1
+    ra, rb = res
     fa, fb = ra["fit"], rb["fit"]
     ncost = 0
     if case.get("compare_signature"):
